@@ -246,3 +246,43 @@ def spec_label(spec):
 
 def library_version():
     return getattr(hexital, "__version__", "?")
+
+
+# ----------------------------------------------------------------------------- member sets
+_TR_USERS = {"ATR", "KC", "ADX", "Supertrend"}
+
+
+def helper_collision(spec_a, spec_b):
+    """Static rule for 'no helper-name collision' between two top-level members (C13 is the
+    property that deliberately violates it): composites that leave a helper under a default name."""
+    for a, b in ((spec_a, spec_b), (spec_b, spec_a)):
+        if a["cls"] == "TR" and b["cls"] in _TR_USERS:
+            return True
+        if a["cls"] == "BBANDS" and b["cls"] in ("SMA", "StandardDeviation"):
+            if a["params"].get("period", 5) == b["params"].get("period", 10 if b["cls"] == "SMA" else 30):
+                return True
+    return False
+
+
+def member_name(spec):
+    return build(spec).name
+
+
+def sample_members(rng, k, timeframes=(None,), allow_amorph=True, max_period=12, classes=None):
+    """k member specs with pairwise distinct names, no helper-name collisions and no input
+    dependencies; each gets a timeframe drawn from `timeframes` (None = the Hexital's default)."""
+    out, names = [], set()
+    guard = 0
+    while len(out) < k and guard < 50:
+        guard += 1
+        spec = sample_spec(rng, rng.choice(classes) if classes else None, allow_amorph=allow_amorph,
+                           max_period=max_period)
+        tf = rng.choice(timeframes)
+        if tf:
+            spec["common"]["timeframe"] = tf
+        name = member_name(spec)
+        if name in names or any(helper_collision(spec, o) for o in out):
+            continue
+        names.add(name)
+        out.append(spec)
+    return out
